@@ -116,12 +116,34 @@ Lemma entry_type_names rn c pds n :
   exists pd, In pd pds /\ In n (p_type_names pd).
 Proof. cbn [reconcile_crate p_type_names with_imports]. apply collect_single_tn. Qed.
 
+(* the import set reconcile_aliases puts back: every import of the collector's entry, under the name its crate
+   generates the type under (rename_import) *)
 Lemma entry_imports rn c pds imp : oracle_ok ho_crate ->
   (In imp (p_imports (reconcile_crate rn c (with_imports (collect_single pds) (imports_iter ho_crate (collect_single pds))))) <->
-   exists pd, In pd pds /\ In imp (p_imports pd)).
+   exists pd imp0, In pd pds /\ In imp0 (p_imports pd) /\ imp = rename_import rn imp0).
 Proof.
-  intros Ho. unfold oracle_ok in Ho. cbn [reconcile_crate p_imports with_imports]. unfold imports_iter. rewrite Ho, imp_extend_in, collect_single_imports, in_flat_map.
-  cbn [In]. tauto.
+  intros Ho. unfold oracle_ok in Ho. cbn [reconcile_crate p_imports with_imports]. rewrite imp_extend_in, in_map_iff. unfold imports_iter.
+  split.
+  - intros [[]|(imp0 & <- & H)]. rewrite Ho, imp_extend_in, collect_single_imports, in_flat_map in H.
+    destruct H as [[]|(pd & Hpd & H)]. now exists pd, imp0.
+  - intros (pd & imp0 & Hpd & H & ->). right. exists imp0. split; [reflexivity|].
+    rewrite Ho, imp_extend_in, collect_single_imports, in_flat_map. right. now exists pd.
+Qed.
+
+(* the rename table of the run (reconcile.rs:23 collect_serde_renames over the collector's map) *)
+Definition multi_rn (arrivals : list (str * parsed)) : renames :=
+  collect_serde_renames (order_imports ho_crate (collect arrivals)).
+
+Lemma multi_crates_entry_rn arrivals c pd : In (c, pd) (multi_crates ho_crate arrivals) ->
+  exists pds, of_crate c arrivals = pds /\ pds <> [] /\
+    pd = reconcile_crate (multi_rn arrivals) c (with_imports (collect_single pds) (imports_iter ho_crate (collect_single pds))).
+Proof.
+  unfold multi_crates, reconcile_aliases, multi_rn. set (rn := collect_serde_renames _). unfold order_imports. intros H.
+  apply in_map_iff in H as ([c1 p1] & E1 & H). apply in_map_iff in H as ([c2 p2] & E2 & H). cbn [fst snd] in *.
+  injection E2 as <- <-. injection E1 as <- <-.
+  apply in_crates_get in H; [|apply collect_nodup]. rewrite collect_get in H.
+  destruct (of_crate c2 arrivals) as [|p ps] eqn:F; [discriminate|]. injection H as <-.
+  eexists. split; [reflexivity|]. split; [discriminate|reflexivity].
 Qed.
 
 Lemma entry_decls rn c pds :
@@ -131,6 +153,50 @@ Proof.
   etransitivity; [apply reconcile_decls|]. rewrite items_of_with_imports. apply Permutation_map, items_single_perm.
 Qed.
 End Crates.
+
+(* ====================================================================================== *)
+(* the rename table, entry by entry                                                         *)
+(* ====================================================================================== *)
+Lemma lookup_rename_in rn n d r : lookup_rename rn n d = Some r -> In (n, d, r) rn.
+Proof.
+  unfold lookup_rename. destruct (find _ (rev rn)) as [[[a b] x]|] eqn:F; [|discriminate]. cbn [option_map snd]. intros [= ->].
+  apply find_some in F as [Hin E]. cbn [fst snd] in E. apply andb_true_iff in E as [E1 E2]. apply str_eqb_eq in E1, E2. subst.
+  now apply in_rev in Hin.
+Qed.
+Lemma lookup_rename_none rn n d r : lookup_rename rn n d = None -> ~ In (n, d, r) rn.
+Proof.
+  unfold lookup_rename. destruct (find _ (rev rn)) as [x|] eqn:F; [discriminate|]. intros _ Hin. apply in_rev in Hin.
+  pose proof (find_none _ _ F _ Hin) as K. cbn [fst snd] in K. now rewrite !str_eqb_refl in K.
+Qed.
+
+Definition renames_item (it : ritem) (n r : str) : Prop :=
+  is_type14 it = true /\ original (item_id it) = n /\ renamed (item_id it) = r /\ via_serde_rename (item_id it) = true.
+
+Lemma crate_renames_in cn pd n d r :
+  In (n, d, r) (crate_renames cn pd) <-> d = cn /\ exists it, In it (items_of pd) /\ renames_item it n r.
+Proof.
+  unfold crate_renames, items_of, renames_item. rewrite !in_app_iff, !in_flat_map. split.
+  - intros [(x & Hx & H)|[(x & Hx & H)|(x & Hx & H)]]; cbv zeta in H.
+    + destruct (via_serde_rename (sid x)) eqn:V; [|destruct H]. destruct H as [[= <- <- <-]|[]]. split; [reflexivity|].
+      exists (ItStruct x). split; [|cbn; auto]. rewrite !in_app_iff. right. left. now apply in_map.
+    + destruct (via_serde_rename (eid (enum_shared x))) eqn:V; [|destruct H]. destruct H as [[= <- <- <-]|[]]. split; [reflexivity|].
+      exists (ItEnum x). split; [|cbn; auto]. rewrite !in_app_iff. right. right. left. now apply in_map.
+    + destruct (via_serde_rename (aid x)) eqn:V; [|destruct H]. destruct H as [[= <- <- <-]|[]]. split; [reflexivity|].
+      exists (ItAlias x). split; [|cbn; auto]. rewrite !in_app_iff. left. now apply in_map.
+  - intros (-> & it & Hit & Ty & <- & <- & V). rewrite !in_app_iff in Hit.
+    destruct Hit as [H|[H|[H|H]]]; apply in_map_iff in H as (x & <- & Hx); cbn [item_id is_type14] in *; try discriminate.
+    + right. right. exists x. split; [exact Hx|]. rewrite V. now left.
+    + left. exists x. split; [exact Hx|]. rewrite V. now left.
+    + right. left. exists x. split; [exact Hx|]. cbv zeta. rewrite V. now left.
+Qed.
+
+Lemma serde_renames_in cs n d r :
+  In (n, d, r) (collect_serde_renames cs) <-> exists pd it, In (d, pd) cs /\ In it (items_of pd) /\ renames_item it n r.
+Proof.
+  unfold collect_serde_renames. rewrite in_flat_map. split.
+  - intros ([k pd] & Hc & H). cbn [fst snd] in H. apply crate_renames_in in H as (-> & it & Hit & R). now exists pd, it.
+  - intros (pd & it & Hc & Hit & R). exists (d, pd). split; [exact Hc|]. cbn [fst snd]. apply crate_renames_in. split; [reflexivity|]. now exists it.
+Qed.
 
 (* ====================================================================================== *)
 (* the workspace                                                                            *)
